@@ -1,10 +1,10 @@
 SPECIFICATION TraceSpec
 CONSTANTS
-  Calls = {1, 2, 3, 4, 5, 6, 7, 8, 9, 10, 11, 12}
-  DocIds = {1, 2, 3, 4, 5}
+  Calls = {1, 2, 3, 4, 5, 6, 7, 8, 9, 10, 11, 12, 13, 14, 15, 16, 17, 18, 19, 20, 21, 22, 23, 24, 25, 26, 27, 28, 29, 30, 31, 32, 33, 34, 35, 36, 37, 38, 39, 40, 41, 42, 43, 44, 45, 46, 47, 48, 49, 50, 51, 52, 53, 54, 55, 56, 57, 58, 59, 60, 61, 62, 63, 64, 65, 66, 67, 68, 69, 70, 71, 72}
+  DocIds = {1, 2, 3, 4, 5, 6}
   FailKinds = {"error", "malformed"}
   MaxFetches = 99
-  MaxOpen = 12
+  MaxOpen = 4
   Overlap = TRUE
   Kinds = {"direct", "prep", "reg", "auction", "bid", "check"}
   Ours = {"V1", "V2"}
